@@ -1,0 +1,113 @@
+//! Verification hooks. Only compiled with `--cfg rscel_verif`; a no-op unless a
+//! harness installs a sink on the current thread.
+use std::cell::{Cell, RefCell};
+
+use crate::{ByteCode, CelValue};
+
+/// One operand-stack entry as seen by the tracer.
+#[derive(Clone, Debug)]
+pub enum StackItem {
+    Value(CelValue),
+    BoundCall(CelValue),
+}
+
+/// VM events, in program order per thread.
+#[derive(Clone, Debug)]
+pub enum Event {
+    /// A `run_raw` activation starts. `guard` is the depth counter after the increment.
+    Enter {
+        frame: u64,
+        parent: u64,
+        guard: usize,
+        code: Vec<ByteCode>,
+    },
+    /// About to execute the instruction at `pc` with the given operand stack.
+    Step {
+        frame: u64,
+        pc: usize,
+        stack: Vec<StackItem>,
+    },
+    /// The activation ends (normally or through `?`).
+    Exit { frame: u64 },
+}
+
+thread_local! {
+    static SINK: RefCell<Option<Vec<Event>>> = RefCell::new(None);
+    static FRAMES: RefCell<Vec<u64>> = RefCell::new(Vec::new());
+    static NEXT: Cell<u64> = Cell::new(0);
+    static LIMIT: Cell<usize> = Cell::new(usize::MAX);
+}
+
+/// Start recording on this thread (at most `limit` events are kept).
+pub fn install(limit: usize) {
+    SINK.with(|s| *s.borrow_mut() = Some(Vec::new()));
+    FRAMES.with(|f| f.borrow_mut().clear());
+    NEXT.with(|n| n.set(0));
+    LIMIT.with(|l| l.set(limit));
+}
+
+/// Stop recording and return what was recorded.
+pub fn take() -> Vec<Event> {
+    FRAMES.with(|f| f.borrow_mut().clear());
+    SINK.with(|s| s.borrow_mut().take().unwrap_or_default())
+}
+
+pub fn active() -> bool {
+    SINK.with(|s| s.borrow().is_some())
+}
+
+pub fn emit(ev: Event) {
+    let limit = LIMIT.with(|l| l.get());
+    SINK.with(|s| {
+        if let Some(v) = s.borrow_mut().as_mut() {
+            if v.len() < limit {
+                v.push(ev)
+            }
+        }
+    });
+}
+
+pub struct FrameGuard {
+    id: u64,
+    on: bool,
+}
+
+impl FrameGuard {
+    pub fn enter(guard: usize, code: impl FnOnce() -> Vec<ByteCode>) -> FrameGuard {
+        if !active() {
+            return FrameGuard { id: 0, on: false };
+        }
+        let id = NEXT.with(|n| {
+            n.set(n.get() + 1);
+            n.get()
+        });
+        let parent = FRAMES.with(|f| f.borrow().last().copied().unwrap_or(0));
+        FRAMES.with(|f| f.borrow_mut().push(id));
+        emit(Event::Enter {
+            frame: id,
+            parent,
+            guard,
+            code: code(),
+        });
+        FrameGuard { id, on: true }
+    }
+
+    pub fn id(&self) -> u64 {
+        self.id
+    }
+
+    pub fn on(&self) -> bool {
+        self.on
+    }
+}
+
+impl Drop for FrameGuard {
+    fn drop(&mut self) {
+        if self.on {
+            FRAMES.with(|f| {
+                f.borrow_mut().pop();
+            });
+            emit(Event::Exit { frame: self.id });
+        }
+    }
+}
